@@ -135,6 +135,15 @@ def stage(v, tier, seed):
     except Exception: raise vlib.MachineryError("life probe printed %r" % out[-300:])
     modes = ("sync" if pr["up"] == "sync" else "async", "refused" if pr["down"] == "refused" else "async")
 
+    # informational: the directed case of the descriptor-number-reuse finding (a callback count / order difference: never a verdict)
+    rc, out, err = vlib.run([life, "fdreuse"], timeout=120, env=env)
+    if rc != 0: vlib.harness_failed(v, rc, out, err, "life fdreuse", "fdreuse")
+    try: fdr = json.loads(out.strip().splitlines()[-1])
+    except Exception: fdr = {"unreadable": out[-200:]}
+    if fdr.get("with_the_kernels_numbers"):
+        vlib.log("NOTE property=%s descriptor-number reuse (reported finding, informational): a session that calls Reconnect() during HandleEvents() inherits the multiplexer's answer about a socket closed earlier in the same iteration "
+                 "and is told ClientConnectionClosed() although its connect is still in progress; the stages below give every server-side socket a never-used number" % prop)
+
     # ------------------------------------------------------------------------------------------------ 1. + 2. model checking and graph dump
     def generate(inst):
         tag, N = inst[0], inst[1]
@@ -330,7 +339,7 @@ def stage(v, tier, seed):
            "graph_edges": sum(g["edges"] for g in gens), "graph_states": sum(g["states"] for g in gens),
            "random_histories": ragg["histories"], "random_steps": ragg["steps"], "random_callbacks": ragg["callbacks"], "armed_callback_actions_fired": ragg["nested_actions_fired"],
            "histories_validated_by_tlc": accepted_hist, "trace_lines": ragg["trace_lines"], "trace_states": tstates,
-           "connect_modes_of_this_machine": {"up": modes[0], "down": modes[1]},
+           "connect_modes_of_this_machine": {"up": modes[0], "down": modes[1]}, "descriptor_number_reuse_case": fdr,
            "vacuity_guards": guards, "actions_taken": taken, "clauses": CLAUSES,
            "model_runs": [{k: g[k] for k in ("tag", "distinct", "generated", "depth", "wall", "edges")} for g in gens] + mcs,
            "evaluations": agg["behaviours"] + ragg["histories"], "distinct_nontrivial": agg["followed"],
